@@ -418,10 +418,10 @@ func (o *metaOracle) source(leg *world.Leg, t *spec.Transfer, suffix string) *es
 // C10 messages and parser
 
 type messageOracle struct {
-	property          string
-	enableNameChange  bool
-	transferParser    vmcommon.ESDTTransferParser
-	realArgParser     interface {
+	property         string
+	enableNameChange bool
+	transferParser   vmcommon.ESDTTransferParser
+	realArgParser    interface {
 		ParseData(string) (string, [][]byte, error)
 	}
 }
